@@ -43,6 +43,7 @@ func init() {
 		"go.net.gettx":     goNetGetTx,
 		"go.tl.nilptr":     goTLNilPtr,
 		"go.proof":         goProof,
+		"go.abi.stack":     goABIStack,
 	}
 	for k, v := range tlbExec {
 		ex[k] = v
@@ -57,6 +58,7 @@ func genC08(g *h.G) {
 	gc.genTLB()
 	gc.genTLBModel()
 	gc.genProofs()
+	gc.genABIStacks()
 	for k := range gc.noSeed {
 		g.Count("no_valid_seed:" + k)
 	}
